@@ -411,7 +411,9 @@ pub fn backup_rt(
             })),
             owner: RECORD_OWNER.with(|c| c.get()),
         };
-        conserve::backup(&a, source, &options, m).await
+        // the source directory as a caller may spell it: every other time with a trailing '/'
+        let spelled = if opts.hunk % 2 == 1 { source.join("") } else { source.to_path_buf() };
+        conserve::backup(&a, &spelled, &options, m).await
     });
     let ch = std::mem::take(&mut *changes.borrow_mut());
     rep.map(|stats| BackupOut { stats, changes: ch })
@@ -519,7 +521,11 @@ pub fn restore(
             change_callback: None,
             inject_failures: Default::default(),
         };
-        conserve::restore(&a, dest, options, m).await
+        // the destination as a caller may spell it: with a trailing '/' when its last
+        // component has an even number of characters
+        let even = dest.file_name().map_or(false, |n| n.len() % 2 == 0);
+        let spelled = if even { dest.join("") } else { dest.to_path_buf() };
+        conserve::restore(&a, &spelled, options, m).await
     })
 }
 
